@@ -169,6 +169,7 @@ type vf3Batch struct {
 	Keys   []string
 	Vals   []string
 	Ext    bool // serve with an external-location configuration
+	ZeroIn bool // a zero-row batch was wrapped into the request column
 }
 
 func (b vf3Batch) clone() vf3Batch {
@@ -595,6 +596,7 @@ func vf3Ops(sd *vf3Seed, w *vf3World) []vf3Op {
 			add("wrap-request:"+p, func(b *vf3Batch) {
 				var payload []byte
 				if p == "valid" {
+					b.ZeroIn = b.ZeroIn || (b.Rows == 0 && len(b.Fields) > 0)
 					inner := vf3Batch{Fields: b.Fields, Cols: b.Cols, Rows: b.Rows}
 					rb := inner.build()
 					payload = vfStreamBytes(rb.Schema(), rb)
@@ -745,7 +747,7 @@ func vf3Apply(sd *vf3Seed, ops ...vf3Op) (input []byte, ext bool, hdr []string, 
 	b.Keys, b.Vals = ks, vs
 	rb := b.build()
 	defer rb.Release()
-	vf3LastZeroRow = b.Rows == 0 && len(b.Fields) > 0
+	vf3LastZeroRow = (b.Rows == 0 && len(b.Fields) > 0) || b.ZeroIn
 	return sd.Frame(rb), b.Ext, hdr, true
 }
 
@@ -784,6 +786,7 @@ func (t *vf3Tail) Write(p []byte) (int, error) {
 func (t *vf3Tail) String() string { t.mu.Lock(); defer t.mu.Unlock(); return string(t.buf) }
 
 var vf3TheChild *vf3Child
+var vf3Spare = make(chan *vf3Child, 1)
 
 func vf3StartChild() *vf3Child {
 	pr1, pw1, err := os.Pipe() // parent -> child
@@ -794,11 +797,11 @@ func vf3StartChild() *vf3Child {
 	if err != nil {
 		panic(err)
 	}
-	// The child gets a small address space (1.5 GiB): an absurd allocation then fails
+	// The child gets a small address space (2 GiB): an absurd allocation then fails
 	// at once instead of being granted, zeroed and scanned by the collector.
 	// Address-space randomisation is switched off (when setarch exists) so that
 	// the same input dies at the same allocation every time.
-	argv := []string{"bash", "-c", `ulimit -v 1572864; exec "$@"`, "--"}
+	argv := []string{"bash", "-c", `ulimit -v 2097152; exec "$@"`, "--"}
 	if p, err := exec.LookPath("setarch"); err == nil {
 		argv = append(argv, p, "x86_64", "-R")
 	}
@@ -845,26 +848,36 @@ var vf3FatalRe = regexp.MustCompile(`(?m)^(fatal error: .*|runtime: goroutine st
 
 // vf3Drive runs one job in the child and turns a dead or silent child into a verdict.
 func vf3Drive(sd *vf3Seed, input []byte, ext bool, hdr []string) vf3Verdict {
+	return vf3DriveJudged(sd, input, ext, hdr, false)
+}
+
+// vf3DriveJudged runs one job. A death is judged from fresh children only (the
+// verdict must not depend on how much address space earlier jobs left mapped);
+// with rejudge set, a panic is also re-run in a fresh child, because a panic on
+// corrupted buffers can depend on what earlier jobs left in recycled memory.
+func vf3DriveJudged(sd *vf3Seed, input []byte, ext bool, hdr []string, rejudge bool) vf3Verdict {
 	v, died := vf3DriveOnce(sd, input, ext, hdr)
-	if !died && v.Fail != "" && vf3TheChild != nil {
-		// A failure is judged from a fresh child too: a panic that depends on what
-		// earlier jobs left in recycled memory would not be reproducible otherwise.
+	if !died && v.Fail != "" && rejudge && vf3TheChild != nil {
 		vf3TheChild.stop()
 		vf3TheChild = nil
-		v, died = vf3DriveOnce(sd, input, ext, hdr)
-		if !died {
+		if v2, died2 := vf3DriveOnce(sd, input, ext, hdr); !died2 {
 			vf3TheChild.stop() // the next job starts clean as well
 			vf3TheChild = nil
+			if v2.Fail == "" {
+				v2.Outcome = "unstable: a panic seen in a used process did not recur in a fresh one"
+			}
+			return v2
 		}
+		return v
 	}
-	// Judge a death only from a fresh child, so the verdict does not depend on
-	// how much address space earlier jobs left mapped in the old one; a death
-	// that names no allocation size is retried (it may name one next time).
-	for try := 0; died && try < 3; try++ {
+	for try := 0; died && try < 2 && !(v.Fail == "" && v.Tag == "final"); try++ {
 		v, died = vf3DriveOnce(sd, input, ext, hdr)
 		if v.Fail != "" {
 			break
 		}
+	}
+	if v.Fail == "" {
+		v.Tag = ""
 	}
 	return v
 }
@@ -872,7 +885,20 @@ func vf3Drive(sd *vf3Seed, input []byte, ext bool, hdr []string) vf3Verdict {
 func vf3DriveOnce(sd *vf3Seed, input []byte, ext bool, hdr []string) (vf3Verdict, bool) {
 	job := vf3Job{HTTP: sd.HTTP, Raw: sd.Raw != nil, Path: sd.Path, Hdr: append(append([]string{}, sd.Hdr...), hdr...), Input: input, Ext: ext}
 	if vf3TheChild == nil {
-		vf3TheChild = vf3StartChild()
+		// take the child that was started ahead of time, and start the next one
+		select {
+		case vf3TheChild = <-vf3Spare:
+		default:
+			vf3TheChild = vf3StartChild()
+		}
+		go func() {
+			c := vf3StartChild()
+			select {
+			case vf3Spare <- c:
+			default:
+				c.stop()
+			}
+		}()
 	}
 	c := vf3TheChild
 	type res struct {
@@ -901,7 +927,7 @@ func vf3DriveOnce(sd *vf3Seed, input []byte, ext bool, hdr []string) (vf3Verdict
 			fmt.Sscan(m[1], &n)
 			if n < 64*(1<<30) {
 				// could be an artefact of the harness' own address-space limit: not judged
-				return vf3Verdict{Outcome: "inconclusive: the runtime refused an allocation below 64 GiB under the harness memory limit"}, true
+				return vf3Verdict{Outcome: "inconclusive: the runtime refused an allocation below 64 GiB under the harness memory limit", Tag: "final"}, true
 			}
 			return vf3Verdict{Fail: "process-killed", Tag: "out-of-memory-allocating-64GiB-or-more",
 				Detail: fmt.Sprintf("the server process died: runtime: out of memory: cannot allocate %s-byte block (fatal error, not recoverable)", m[1]), Outcome: "killed:oom"}, true
@@ -911,7 +937,7 @@ func vf3DriveOnce(sd *vf3Seed, input []byte, ext bool, hdr []string) (vf3Verdict
 			tag, line = vf3PanicTag(m), m
 		}
 		if tag == "unknown" || strings.Contains(line, "allocate memory") || strings.Contains(line, "out of memory") || strings.HasPrefix(line, "SIGABRT") {
-			// the runtime itself ran out of address space under the child's 1.5 GiB cap: an artefact, not judged
+			// the runtime itself ran out of address space under the child's 2 GiB cap: an artefact, not judged
 			return vf3Verdict{Outcome: "inconclusive: the child died of memory starvation under the harness memory limit"}, true
 		}
 		return vf3Verdict{Fail: "process-killed", Tag: tag, Detail: "the server process died: " + line + " | " + vf3FirstLines(log, 6), Outcome: "killed:" + tag}, true
@@ -973,6 +999,8 @@ func vf3OpClass(sd *vf3Seed, ops []vf3Op, op vf3Op, v vf3Verdict) string {
 
 var vf3Killed int64
 
+var vf3SingleFails = map[string][]bool{}
+
 func vf3Sig(sd *vf3Seed, opClass string, v vf3Verdict) string {
 	sig := "C03:" + sd.Name + ":" + vf3Sanitize(opClass) + ":" + v.Fail
 	if v.Tag != "" {
@@ -989,6 +1017,12 @@ func TestVerif_C03(t *testing.T) {
 	defer func() {
 		if vf3TheChild != nil {
 			vf3TheChild.stop()
+		}
+		time.Sleep(200 * time.Millisecond)
+		select {
+		case c := <-vf3Spare:
+			c.stop()
+		default:
 		}
 	}()
 	venum.Begin("C03")
@@ -1052,8 +1086,24 @@ func TestVerif_C03(t *testing.T) {
 		venum.Explore(t, venum.Cfg{Name: "structural-pairs", Shardable: true}, func(x *venum.X) {
 			sd := arrowSeeds[x.Choose(len(arrowSeeds), "seed")]
 			ops := vf3Ops(sd, w)
-			a := ops[x.Choose(len(ops), "first")]
-			b := ops[x.Choose(len(ops), "second")]
+			ai, bi := x.Choose(len(ops), "first"), x.Choose(len(ops), "second")
+			a, b := ops[ai], ops[bi]
+			// A pair is explored for what the two operators do together; when one of
+			// them already fails alone (reported by the space above) the pair is skipped.
+			key := sd.Name
+			if _, ok := vf3SingleFails[key]; !ok {
+				fails := make([]bool, len(ops))
+				for i, o := range ops {
+					if in1, e1, h1, ok1 := vf3Apply(sd, o); ok1 {
+						fails[i] = vf3Drive(sd, in1, e1, h1).Fail != ""
+					}
+				}
+				vf3SingleFails[key] = fails
+			}
+			if f := vf3SingleFails[key]; f[ai] || f[bi] {
+				x.Outcome("%s: pair contains an operator that fails alone", sd.Name)
+				return
+			}
 			in, ext, hdr, ok := vf3Apply(sd, a, b)
 			if !ok {
 				x.Outcome("inexpressible")
@@ -1111,7 +1161,7 @@ func TestVerif_C03(t *testing.T) {
 		}
 		mut := append([]byte{}, full...)
 		mut[off] = val
-		v := vf3Drive(sd, mut, false, nil)
+		v := vf3DriveJudged(sd, mut, false, nil, true)
 		if v.Fail != "" {
 			x.Failf(vf3Sig(sd, "byte-substitution", v), "%s with byte %d changed from %#02x to %#02x: %s", sd.Name, off, orig, val, v.Detail)
 		}
